@@ -156,7 +156,9 @@ func runTar(ctx context.Context, opt tarOptions, args []string) error {
 		return err
 	}
 
-	index.Index.FeatureFlags |= desync.TarFeatureFlags
+	// All but the digest flag, that one is set by ChunkStream according to the
+	// digest algorithm in use
+	index.Index.FeatureFlags |= desync.TarFeatureFlags &^ desync.CaFormatSHA512256
 
 	// See if Tar encountered an error along the way
 	if tarErr != nil {
